@@ -348,8 +348,6 @@ def worker_main(args):
         cov = coverage.Coverage(data_file=os.path.join(os.environ["VERIF_COVERAGE_DIR"], ".coverage"), data_suffix=True,
                                 source=[os.path.join(REPO, "numpoly")])
         cov.start()
-        import atexit
-        atexit.register(lambda: (cov.stop(), cov.save()))
     w = Worker(args.property, args.tier, args.seed, args.shard, args.nshards,
                tag=os.path.basename(args.out)[:-5])
     known = load_known().get(args.property, {})
@@ -405,6 +403,9 @@ def worker_main(args):
     with open(tmp, "w") as fh:
         json.dump(out, fh, default=str)
     os.replace(tmp, args.out)
+    if cov is not None:
+        cov.stop()
+        cov.save()
     # skip interpreter teardown: a corrupted heap must not turn into a hang
     sys.stdout.flush()
     os._exit(0)
